@@ -2512,6 +2512,23 @@ class Interp:
                     finally:
                         self.depth -= 1
                     return ("map", ("lam", 1, body_, d_), dom_)
+            if q == "jax.tree_util.tree_unflatten" and len(args) + len(kwargs) == 2:
+                # tree_unflatten(treedef, [f(l) for l in leaves]) with (leaves, treedef) = tree_flatten(tree, is_leaf=p)
+                # is tree_map(f, tree, is_leaf=p) - the definition of tree_map
+                b_ = dict(zip(("treedef", "leaves"), [self.as_term(x) for x in args]))
+                b_.update({k: self.as_term(v) for k, v in kwargs.items()})
+                td_, lv_ = b_.get("treedef"), b_.get("leaves")
+                if lv_ is not None and lv_[0] == "call" and lv_[1] in (("ext", "builtins.list"), ("ext", "builtins.tuple")) and len(lv_[2]) == 1:
+                    lv_ = lv_[2][0]
+                if td_ is not None and lv_ is not None and td_[0] == "sub" and td_[2] == C(1) and lv_[0] == "map" and \
+                        lv_[2][0] == "sub" and lv_[2][2] == C(0) and lv_[2][1] == td_[1]:
+                    fl_ = td_[1]
+                    if fl_[0] == "call" and fl_[1] == ("ext", "jax.tree_util.tree_flatten"):
+                        fa_ = dict(fl_[3])
+                        tree_ = fa_.get("tree") if "tree" in fa_ else (fl_[2][0] if fl_[2] else None)
+                        if tree_ is not None:
+                            kw2 = {"is_leaf": fa_["is_leaf"]} if "is_leaf" in fa_ else {}
+                            return self.call(("ext", "jax.tree_util.tree_map"), [lv_[1], tree_], kw2, ctx)
             if q == "builtins.slice" and 1 <= len(args) <= 3 and not kwargs:
                 a_ = [self.as_term(x) for x in args]
                 if len(a_) == 1:
@@ -2721,9 +2738,22 @@ class Interp:
         d = self.depth
         elem = ("bv", d, 0)
 
+        def nt_parts(t):
+            """(class name, [(field, value)...] in declaration order) for a complete NamedTuple constructor call"""
+            if t[0] == "call" and t[1][0] == "ext" and t[1][1] in NT_CLASSES:
+                fields = NT_CLASSES[t[1][1]]
+                vals = [nt_field(t, f_) for f_ in fields]
+                if all(v is not None for v in vals):
+                    return t[1][1], list(zip(fields, vals))
+            return None
+
         def mkcarry(t, counter):
             if t[0] == "tuple":
                 return ("tuple", tuple(mkcarry(x, counter) for x in t[1]))
+            r_ = nt_parts(t)
+            if r_ is not None:
+                # a record-typed carry: the loop function sees a record whose fields are the carried variables
+                return ("call", ("ext", r_[0]), (), tuple(sorted([(f_, mkcarry(v, counter)) for f_, v in r_[1]])))
             counter[0] += 1
             return ("bv", d, counter[0])
 
@@ -2740,6 +2770,12 @@ class Interp:
         leaves_init, leaves_new, ok = [], [], [True]
 
         def flat(ti, tn):
+            r_ = nt_parts(ti)
+            if r_ is not None:
+                for f_, a in r_[1]:
+                    v_ = nt_field(tn, f_)
+                    flat(a, v_ if v_ is not None else ("attr", tn, f_))
+                return
             if ti[0] == "tuple":
                 if tn[0] == "tuple" and len(tn[1]) == len(ti[1]):
                     for a, b2 in zip(ti[1], tn[1]):
@@ -2776,6 +2812,9 @@ class Interp:
         pos = [0]
 
         def rebuild(ti):
+            r_ = nt_parts(ti)
+            if r_ is not None:
+                return ("call", ("ext", r_[0]), (), tuple(sorted([(f_, rebuild(v)) for f_, v in r_[1]])))
             if ti[0] == "tuple":
                 return ("tuple", tuple(rebuild(x) for x in ti[1]))
             pos[0] += 1
